@@ -88,7 +88,16 @@ func patchTreasuresOneSwamp(ctx context.Context, g Gateway, in *hydrapb.PatchTre
 		}
 		// Same per-treasure predicate, but feeding the live treasure's
 		// current body to capCountTreasures.
+		capFilter := in.GetCap().GetFilter()
 		treasurePredicate := func(t treasureForCount) bool {
+			// Count with the evaluator that filtered reads, Shift* and PatchExpired
+			// use: a stored value that is not a msgpack map (typed value, bytes
+			// without the msgpack magic) satisfies IS_EMPTY legs there. Decoding
+			// only msgpack bodies here would leave such records out of the count
+			// and hand the batch more budget than Cap.MaxMatching allows.
+			if full, ok := t.(treasure.Treasure); ok {
+				return evaluateNativeFilterGroup(full, capFilter)
+			}
 			raw, err := t.GetContentByteArray()
 			if err != nil || len(raw) < 2 {
 				return false
